@@ -385,6 +385,9 @@ package websocket
 //@   assert at "if readBytes > s.maxMessageSize": [C06 appended] readBytes == readBytes$head + n &&
 //@          n == min(len(b) - readBytes$head, len(Frame.Payload(f))) &&
 //@          (forall k :: 0 <= k && k < n ==> b[readBytes$head + k] == Frame.Payload(f)[k])
+//@   // the message's type is the opcode of its first data frame and stays that
+//@   assert at "if readBytes > s.maxMessageSize": [C06 type] (messageType$head == TypeNone ==> messageType == MessageType(f[0] & 15)) &&
+//@          (messageType$head != TypeNone ==> messageType == messageType$head)
 //@   // a frame that does not fit into the buffer, or a message above the limit, ends the read with an error
 //@   assert at "if err != nil || !continuation": [C15 fits] n == Frame.PayloadLength(f) && readBytes <= s.maxMessageSize
 //@   ensures [in-buffer] 0 <= readBytes && readBytes <= len(b)
